@@ -367,7 +367,7 @@ NSHARD = 16
 
 
 def plan(tier):
-    n = 400 if tier == 'quick' else 3000
+    n = 400 if tier == 'quick' else 6000
     specs = [{'kind': 'hyp', 'shard': i, 'examples': n} for i in range(NSHARD)]
     specs += [{'kind': 'address', 'shard': 100 + i} for i in range(8)]
     specs += [{'kind': 'column', 'shard': 200}]
